@@ -190,21 +190,17 @@ def _cost(job):
 # ----------------------------------------------------------------------------
 # binding one family to the code
 # ----------------------------------------------------------------------------
-def absorb(chk, part, done, total):
-    if len(done) < total:
-        chk.note("%s: stopped after %d of %d work items because enough failing ones were collected" % (part, len(done), total))
-    for _, out in done:
-        chk.cov["evaluations"] += out.evals
-        chk.cov["traces_validated_against_impl"] += out.bound
-        chk.part(part, items=1, calls=out.evals, compared=out.bound)
-        for nt in out.notes:
-            chk.note(nt)
-        for p in out.problems:
-            chk.violation(p["key"], p["what"], p["replay"])
-
-
-def bad(out):
-    return bool(out.problems)
+def absorb(chk, part, result, total):
+    out, done = result
+    if done < total:
+        chk.note("%s: stopped after %d of %d work items because enough failing ones were collected" % (part, done, total))
+    chk.cov["evaluations"] += out.evals
+    chk.cov["traces_validated_against_impl"] += out.bound
+    chk.part(part, items=done, calls=out.evals, compared=out.bound)
+    for nt in out.notes:
+        chk.note(nt)
+    for p in out.problems:
+        chk.violation(p["key"], p["what"], p["replay"])
 
 
 def bind(chk, name, recs, stats):
@@ -219,7 +215,7 @@ def bind(chk, name, recs, stats):
             chk.cov["distinct_nontrivial"] += 1
     if "DG" in kinds:
         items = [r for r in recs if r["kind"] == "DG"]
-        absorb(chk, name, common.pool_run(S.check_dg, items, bad), len(items))
+        absorb(chk, name, S.fork_map(S.check_dg, items), len(items))
     if "BOND" in kinds:
         groups = {}
         for r in recs:
@@ -230,13 +226,13 @@ def bind(chk, name, recs, stats):
             if len(grp) != 2 ** m:
                 raise MachineryFailure("BOND group with %d outcomes for %d edges" % (len(grp), m))
         items = list(groups.values())
-        absorb(chk, name, common.pool_run(S.check_bond, items, bad), len(items))
+        absorb(chk, name, S.fork_map(S.check_bond, items), len(items))
     if kinds & {"RULE", "TYPED"}:
         items = [r for r in recs if r["kind"] in ("RULE", "TYPED")]
-        absorb(chk, name, common.pool_run(S.check_rule, items, bad), len(items))
+        absorb(chk, name, S.fork_map(S.check_rule, items), len(items))
     if "TIMING" in kinds:
         items = [r for r in recs if r["kind"] == "TIMING"]
-        absorb(chk, name, common.pool_run(S.check_timing, items, bad), len(items))
+        absorb(chk, name, S.fork_map(S.check_timing, items), len(items))
         by = {S.scenario_key(r): r for r in items}
         ditems = []
         for r in items:
@@ -249,7 +245,7 @@ def bind(chk, name, recs, stats):
                     refs[fl] = by[k]
                 ditems.append((r, refs))
         stats["dperc"] += len(ditems)
-        absorb(chk, name + " [Markovian draws]", common.pool_run(S.check_dperc, ditems, bad), len(ditems))
+        absorb(chk, name + " [Markovian draws]", S.fork_map(S.check_dperc, ditems), len(ditems))
     mid = recs[len(recs) // 2]
     chk.sample({"family": name, "scenario": mid["src"], "spec_H_successors": mid["adj"],
                 "spec_admissible_(|In|,|Out|)": mid["adm"], "weight": mid["weight"]}, cap=16)
@@ -277,10 +273,10 @@ def replay(chk, path):
         # only the replayed scenario is bound (the references serve the probe)
         by = {S.scenario_key(r): r for r in recs}
         me = by[S.scenario_key(sc)]
-        absorb(chk, "replay", [(me, S.check_timing(me))], 1)
+        absorb(chk, "replay", (S.check_timing(me), 1), 1)
         if S.realisable(me):
             refs = {fl: by[S.scenario_key(x)] for fl, x in timing_refs(n, sc["src"]["g"], sc["inf"]).items()}
-            absorb(chk, "replay", [(me, S.check_dperc((me, refs)))], 1)
+            absorb(chk, "replay", (S.check_dperc((me, refs)), 1), 1)
         chk.sample({"replayed": sc})
     else:
         bind(chk, "replay", recs, stats)
@@ -292,7 +288,15 @@ def main(argv=None):
     common.import_eon()
     rp = os.environ.get("EON_VERIF_REPLAY")
     if rp:
-        return replay(chk, rp)
+        # a replay is a diagnosis, not a run of the check: keep the evidence of the last full run
+        evp = os.path.join(common.VERIF, "evidence", "C17.json")
+        old = open(evp, "rb").read() if os.path.exists(evp) else None
+        try:
+            return replay(chk, rp)
+        finally:
+            if old is not None:
+                with open(evp, "wb") as fh:
+                    fh.write(old)
     jobs = plan(chk.tier, chk.seed)
     results = run_jobs(jobs, par=6 if chk.tier == "quick" else 4)
     stats = {"scenarios": 0, "no_edges": 0, "ties": 0, "several_answers": 0, "dperc": 0}
